@@ -158,7 +158,9 @@ class StmtMixin:
             st.locals[target.id] = v
         elif isinstance(target, (ast.Tuple, ast.List)):
             vv = self.deref(v, st)
-            if isinstance(vv, VTuple):
+            if isinstance(vv, VAbs) and hasattr(vv, "unpack"):
+                elems = vv.unpack(len(target.elts), st, self, target)
+            elif isinstance(vv, VTuple):
                 elems = vv.elems
             elif isinstance(vv, VSeq) and vv.concrete is not None:
                 elems = vv.concrete
@@ -373,8 +375,12 @@ class StmtMixin:
                 st.assume(nv.len >= 0)
                 return st.alloc(nv)
             return v
-        if isinstance(v, (VAbs, VFunc, VClass, VModule)):
+        if isinstance(v, VAbs) and hasattr(v, "havoc"):
+            return v.havoc(label)
+        if isinstance(v, (VFunc, VClass, VModule)):
             return v
+        if isinstance(v, VAbs):
+            raise Unsupported(f"a loop reassigns '{label}' holding an abstract {getattr(v, 'label', 'object')} that cannot be havoced")
         nv = fresh(typeof(v), label)
         acc = []
         seq_len_nonneg(nv, acc)
@@ -543,12 +549,17 @@ class StmtMixin:
                         continue
                     res |= set(sp.get(key, {}).keys())
         eff = c.get("ghost_effects", {})
+        from .absobj import GHOST_METHODS, GHOST_ANY_CALL
         for stmt in loop_node.body:
             for n in ast.walk(stmt):
+                if isinstance(n, ast.Call):
+                    res |= set(GHOST_ANY_CALL)
                 if isinstance(n, ast.Call) and isinstance(n.func, ast.Attribute):
                     res |= set(eff.get(f"call:{n.func.attr}", []))
+                    res |= set(GHOST_METHODS.get(n.func.attr, []))
                 elif isinstance(n, ast.Call) and isinstance(n.func, ast.Name):
                     res |= set(eff.get(f"call:{n.func.id}", []))
+                    res |= set(GHOST_METHODS.get(n.func.id, []))
                 elif isinstance(n, (ast.For, ast.comprehension)):
                     res |= set(eff.get(f"iter:{ast.unparse(n.iter)}", []))
                     res |= set(eff.get("iter:*", []))
@@ -614,6 +625,19 @@ class StmtMixin:
     def prove(self, st, name, entry, env, node, kind="vc"):
         """emit the obligation(s) for one spec entry. An entry is an expression string, or H(goal, fact...) =
         ("goal", [facts]): lemma isolation - every fact is proved in the full context, the goal from the facts only."""
+        if isinstance(entry, dict) and "forall" in entry:
+            # forall-block: fresh constants for the bound variables, the range is assumed, the entries are proved in
+            # sequence for those constants (each may use the earlier ones) - i.e. a universally quantified conclusion
+            # proved by generalisation, with ground lemma instances instead of quantified lemmas
+            names = entry["forall"] if isinstance(entry["forall"], (list, tuple)) else [entry["forall"]]
+            blk = st.fork()
+            benv = dict(env or {})
+            for nme in names:
+                benv[nme] = VInt(z3.Int(uid(nme)))
+            blk.assume(self.spec_bool(entry["range"], blk, benv))
+            for i, sub in enumerate(entry["asserts"]):
+                blk.assume(self.prove(blk, f"{name}.{i}", sub, benv, node, kind))
+            return z3.BoolVal(True)
         if isinstance(entry, tuple):
             goal, facts = entry
             fts = []
